@@ -495,7 +495,26 @@ static Result check_locality(const J &c)
       const size_t k = static_cast<size_t>(p.at("k").num());
       // beside trench segment k (between coordinates k and k+1, middle half): the adjacent sections are k and k+1; allowing for the
       // bends of the trench the foot may lie one segment further, so `changed` has to be at least two coordinates away
-      const bool far = (changed + 2 <= k) || (k + 3 <= changed);
+      bool far = (changed + 2 <= k) || (k + 3 <= changed);
+      // ... and the same for every other trench segment that is about as close to the point as the nearest one: far down a slab,
+      // on the inner side of a bend, the closest trench point can lie several segments away from the one the point was generated beside
+      {
+        const J &co = root.at("features")[0].at("coordinates");
+        const double px = p.at("nat")[0].num(), py = p.at("nat")[1].num();
+        const bool sphw = root.at("coordinate system").at("model").str() == "spherical";
+        const double cl = sphw ? std::cos(py * DEG) : 1.0;
+        std::vector<double> dist(co.size() - 1);
+        double dmin = HUGE_VAL;
+        for (size_t j = 0; j + 1 < co.size(); ++j)
+          {
+            const double ax = (co[j][0].num() - px) * cl, ay = co[j][1].num() - py, bx = (co[j + 1][0].num() - px) * cl, by = co[j + 1][1].num() - py;
+            const double ex = bx - ax, ey = by - ay, t = std::max(0.0, std::min(1.0, -(ax * ex + ay * ey) / (ex * ex + ey * ey)));
+            dist[j] = std::hypot(ax + t * ex, ay + t * ey);
+            dmin = std::min(dmin, dist[j]);
+          }
+        for (size_t j = 0; j + 1 < co.size(); ++j)
+          if (dist[j] <= 1.25 * dmin + (sphw ? 0.3 : 30e3) && !((changed + 2 <= j) || (j + 3 <= changed))) far = false;
+      }
       if (!far) continue;
       const std::vector<double> a = A->properties(p3(p.at("p")), p.at("depth").num(), all_props());
       const std::vector<double> b = B->properties(p3(p.at("p")), p.at("depth").num(), all_props());
